@@ -1398,7 +1398,8 @@ class Builder:
                 for o in w['overlays']]
         if 'props' in w:
             out['props'] = [
-                B.StaticProp(p['model'], Vec(*p['origin']), Angle(*p['angles']), Vec(*p['scaling']),
+                B.StaticProp(p['model'], Vec(*p['origin']), Angle(*p['angles']),
+                             p['scaling'][0] if p.get('scaling_is_float') else Vec(*p['scaling']),
                              {self.ref('visleafs', x) for x in p['leafs']}, p['solidity'], B.StaticPropFlags(p['flags']), p['skin'],
                              p['fade'][0], p['fade'][1], Vec(*p['lighting']), p['fade_scale'], p['dx'][0], p['dx'][1],
                              p['cpu'][0], p['cpu'][1], p['gpu'][0], p['gpu'][1], Vec(*p['tint']), p['renderfx'], p['xbox'],
